@@ -51,6 +51,7 @@ type End struct {
 	q      [][]byte
 	closed bool
 	werr   error // when set, WriteMsg fails with it while reads go on
+	wmax   int   // when > 0, WriteMsg refuses longer messages as transport.Handle.WriteMsg does
 	rdl    time.Time
 	wake   chan struct{}
 }
@@ -163,6 +164,10 @@ func (e *End) WriteMsg(b []byte) error {
 		e.mu.Unlock()
 		return err
 	}
+	if e.wmax > 0 && len(b) > e.wmax {
+		e.mu.Unlock()
+		return transport.ErrBufOverflow
+	}
 	e.mu.Unlock()
 	cp := append([]byte(nil), b...)
 	p := e.p
@@ -194,6 +199,11 @@ func (e *End) WriteMsg(b []byte) error {
 // FailWrites makes every later WriteMsg of this end return err (as a UDP socket
 // does after an ICMP destination-unreachable) while reads keep being served.
 func (e *End) FailWrites(err error) { e.mu.Lock(); e.werr = err; e.mu.Unlock() }
+
+// LimitWrites makes WriteMsg refuse messages longer than n bytes with
+// transport.ErrBufOverflow, which is what a real transport connection does
+// above transport.MaxPlaintextSize (by default this network carries any size).
+func (e *End) LimitWrites(n int) { e.mu.Lock(); e.wmax = n; e.mu.Unlock() }
 
 // Read implements net.Conn.
 func (e *End) Read(b []byte) (int, error) { return e.ReadMsg(b) }
